@@ -37,7 +37,7 @@ class PartStats:
         self.total_cases = None
 
     def record(self, case, out, max_samples):
-        self.evaluations += 1
+        self.evaluations += int(out.get('count') or 1)
         if out.get('excluded'):
             self.excluded[out['excluded']] = self.excluded.get(out['excluded'], 0) + 1
         for c in out.get('classes') or ():
